@@ -200,7 +200,24 @@ def run(rep):
                         ok = True
                 occ = sum(1 for i in rep.instances if i.key.startswith("PROV-SYNTH/%s-use" % which))
                 rep.check(ok, "PROV-SYNTH", "PROV-SYNTH/%s-use#%d" % (which, occ), n["sp"], "`%s` only flows into rows / Expression::Matrix" % which, show(parent)[:80] if parent else "-")
+    rep.describe("PROV-FIELD", "every field name written into a rebuilt node by the optimiser is the original node's own field (moved or cloned) or the synthetic matrix key")
+    nfield = 0
+    for pname in ("optimiser::coalesce", "optimiser::shake_0", "optimiser::shake_1", "optimiser::rewrite", "optimiser::matrix"):
+        f = F.fn(pname)
+        if f is None:
+            continue
+        for n in walk(f.body):
+            if n.get("k") == "Adt" and n["adt"] == "parser::Expression" and n["variant"] in ("Nested", "Search", "Field", "Cast"):
+                pos = {"Nested": "0", "Search": "1", "Field": "0", "Cast": "0"}[n["variant"]]
+                fe = [x["e"] for x in n["fields"] if x["name"] == pos][0]
+                p = peel(fe)
+                ok = p.get("k") == "Var" or (call_is(p, "Clone::clone") and peel(p["args"][0]).get("k") == "Var") or (call_is(p, "to_string") and peel(p["args"][0]).get("k") == "Var" and peel(p["args"][0])["ty"] == "char")
+                nfield += 1
+                rep.check(ok, "PROV-FIELD", "PROV-FIELD/%s/%s#%d" % (pname.split("::")[-1], n["variant"], nfield), n["sp"], "field name is the original field or the synthetic key, never a computed string", show(fe)[:80])
+    rep.floor("PROV-FIELD", 12)
     rep.floor("PROV-KEY", 20)
+    import core
+    core.import_rules(rep, "c01", {"PASS-ARMS"})
     rep.floor("PROV-DOC", 24)
     rep.floor("PROV-MATRIX", 4)
     rep.floor("PROV-CACHE", 6)
